@@ -107,7 +107,7 @@ func (o *mobj) get(name string) fval {
 }
 
 var numTexts = []string{"1", "1.0", "-3", "2.5", "6", "100", "-0.5", "1e2", "3", "2"}
-var strTexts = []string{"abc", "ABC", "abd", "b", "Zed", "_x", "zzz"}
+var strTexts = []string{"abc", "ABC", "abd", "ABD", "b", "Zed", "zED", "zeb", "_x", "zzz", "tom", "Tzz", "TIM", "ta"}
 var jsonTexts = []string{`{"a":1}`, `[1,2]`, `{"b":"x"}`, `{"A":1}`, `["X"]`}
 
 func pick(r *rand.Rand, a []string) string { return a[r.Intn(len(a))] }
